@@ -15,8 +15,8 @@ import (
 
 func init() {
 	fw.Register(&fw.Property{
-		ID:    "C02",
-		Level: "exploration",
+		ID:     "C02",
+		Level:  "exploration",
 		Jitter: true,
 		Rule: "seeded SAM files with non-conflicting 1-4 record queries (40% emphasis on several records carrying insertions with short anchors, either record order, N-skips next to insertions, insertions at reference position 0 and L) x skip-insertions x omit-reference x window x wrap x threads, directory mode in-process and stdout mode through the binary; " +
 			"non-trivial = query set has an insertion or a multi-record query; distinct = (max records, insertion count class, insertion owner pattern, min anchor class, options)",
@@ -315,8 +315,87 @@ func runC02(c *fw.Ctx, idx int) fw.Result {
 				map[string]string{"in.sam": sf.Text, "ref.fasta": refFasta, "stdout.txt": string(br.Stdout), "stderr.txt": string(br.Stderr)}, args)
 		}
 	}
+	if idx%8 == 3 && len(res.Viol) == 0 {
+		c02EqualsInSeq(c, &res, r, idx, sf, ref, refFasta)
+	}
 	if idx < 3 {
 		res.Sample = map[string]interface{}{"sam": sf.Text, "argv": argv, "observed_files": files}
 	}
 	return res
+}
+
+// c02EqualsInSeq: SAM allows '=' in SEQ for a base identical to the reference. What the
+// converters write for such a column is not stated by the property; that the three views of
+// one query (toPairAlign, toPairAlign --skip-insertions, toMultiAlign --pad) agree on it is.
+// Relation only: no model judges the rows here.
+func c02EqualsInSeq(c *fw.Ctx, res *fw.Result, r *fw.Rng, idx int, sf gen.SamFile, ref, refFasta string) {
+	var sb strings.Builder
+	sb.WriteString(fmt.Sprintf("@SQ\tSN:%s\tLN:%d\n", sf.RefName, len(ref)))
+	nEq := 0
+	for _, q := range sf.Queries {
+		for _, rc := range q.Recs {
+			seq := []byte(rc.Seq)
+			qp, rp := 0, rc.Pos
+			for _, o := range rc.Cigar {
+				switch o.T {
+				case 'M', '=':
+					for k := 0; k < o.N; k++ {
+						if qp < len(seq) && rp < len(ref) && seq[qp] == ref[rp] && r.Chance(0.3) {
+							seq[qp] = '='
+							nEq++
+						}
+						qp++
+						rp++
+					}
+				case 'X':
+					qp += o.N
+					rp += o.N
+				case 'I', 'S':
+					qp += o.N
+				case 'D', 'N':
+					rp += o.N
+				}
+			}
+			sb.WriteString(fmt.Sprintf("%s\t%d\t%s\t%d\t60\t%s\t*\t0\t0\t%s\t*\n", rc.Name, rc.Flag, sf.RefName, rc.Pos+1, rc.CigarString(), seq))
+		}
+	}
+	if nEq == 0 {
+		return
+	}
+	text := sb.String()
+	dir := filepath.Join(c.Tmp, fmt.Sprintf("c02eq-%d", idx))
+	defer os.RemoveAll(dir)
+	full, e1 := run.ToPairAlignDir(text, refFasta, dir, -1, -1, -1, false, false, 2)
+	skip, e2 := run.ToPairAlignDir(text, refFasta, dir, -1, -1, -1, false, true, 2)
+	padOut, e3 := run.ToMultiAlign(text, -1, -1, -1, true, 1)
+	res.Evals += 3
+	res.Count("cases_with_equals_sign_in_SEQ", 1)
+	fl := map[string]string{"in.sam": text, "ref.fasta": refFasta}
+	argv := []string{"sam", "toPairAlign / toPairAlign --skip-insertions / toMultiAlign --pad", "SEQ with '='"}
+	if e1 != nil || e2 != nil || e3 != nil {
+		res.Fail("equals-in-seq:error-on-valid-input", fmt.Sprint(e1, e2, e3), fl, argv)
+		return
+	}
+	_, padRows, _ := parseFasta(padOut)
+	if len(padRows) != len(sf.Queries) {
+		res.Fail("equals-in-seq:rows", "toMultiAlign --pad did not give one row per query", fl, argv)
+		return
+	}
+	for qi, q := range sf.Queries {
+		fname := strings.ReplaceAll(q.Name, "/", "_") + ".fasta"
+		_, a, _ := parseFasta(full[fname])
+		_, b, _ := parseFasta(skip[fname])
+		if len(a) != 2 || len(b) != 2 {
+			res.Fail("equals-in-seq:record-count", fname+": expected reference and query rows", fl, argv)
+			return
+		}
+		collapsed := dropRefGapCols(a[0], a[1])
+		if collapsed != padRows[qi] || b[1] != padRows[qi] {
+			fl["observed_"+fname] = full[fname]
+			fl["observed_skip_insertions_"+fname] = skip[fname]
+			fl["observed_multialign_pad.fasta"] = padOut
+			res.Fail("equals-in-seq:relation", fmt.Sprintf("query %s with '=' in SEQ: the toPairAlign row without the reference-gap columns (%s), the --skip-insertions row (%s) and the toMultiAlign --pad row (%s) differ", q.Name, clipStr(collapsed, 80), clipStr(b[1], 80), clipStr(padRows[qi], 80)), fl, argv)
+			return
+		}
+	}
 }
